@@ -87,7 +87,7 @@ def build_runner(case, log, workdir=None):
             log.append(["call", v, a, "ok"])
             r = SimulationResults()
             r.add_new_result("tok", Result.SUMTYPE, 2 ** (a - 1))
-            r.add_new_result("rat", Result.RATIOTYPE, 2 ** (a - 1), 2 ** 20)
+            r.add_new_result("num", Result.RATIOTYPE, 2 ** (a - 1), 2 ** 20)
             r.add_new_result("cho", Result.CHOICETYPE, a % 3, 3)
             r.add_new_result("mis", Result.MISCTYPE, a)
             return r
@@ -116,7 +116,7 @@ def decode(tokval):
 
 def check_results(lst_of, stored, what):
     """lst_of(name) -> list of Result objects (one per stored entry)"""
-    for name in ("tok", "rat", "cho", "mis", "num_skipped_reps"):
+    for name in ("tok", "num", "cho", "mis", "num_skipped_reps"):
         lst = lst_of(name)
         if len(lst) != len(stored):
             return f"{what}: {len(lst)} stored results for {name}, expected {len(stored)}"
@@ -128,7 +128,7 @@ def check_results(lst_of, stored, what):
             return f"{what}: variation {st['v']}: stored result is the merge of attempts {got}, expected {m}"
         if tok.num_updates != len(m):
             return f"{what}: variation {st['v']}: update count {tok.num_updates} != {len(m)}"
-        rat = lst_of("rat")[i]
+        rat = lst_of("num")[i]
         if rat.get_result() != sum(2 ** (a - 1) for a in m) / (len(m) * 2 ** 20):
             return f"{what}: variation {st['v']}: ratio result is not the merge of attempts {m}"
         cho = lst_of("cho")[i]
